@@ -1323,6 +1323,97 @@ def classify_function_values(case, exc):
     return None
 
 
+# ---------------------------------------------------------------------------
+# copies of thermal-noise objects versus later assignments to the original
+
+
+NOISE_ALIAS_KEY = "noise copy follows a later assignment to the original's basis"
+
+
+@st.composite
+def noise_derived_cases(draw):
+    n = draw(st.integers(8, 48))
+    return {"cls": draw(st.sampled_from(["FullNoise", "FFTNoise"])), "n": n,
+            "dt": 2.0 ** draw(st.integers(-31, -27)), "i0": draw(st.integers(-50, 50)),
+            "band": [draw(floats(0.02, 0.2)), draw(floats(0.25, 0.45))],      # in units of 1/dt
+            "rms": draw(log_floats(1e-6, 10.0)), "seed": draw(seeds32),
+            "derive": draw(st.sampled_from(["copy", "with_times", "with_times_sub", "mul", "rmul", "div",
+                                            "add_empty", "radd_empty"])),
+            "read_first": draw(st.booleans()),
+            "assign": draw(st.sampled_from(["rms", "amps", "phases", "rms", "amps_scaled"])),
+            "factor": draw(st.sampled_from([2.0, -1.0, 0.5, 3.0]))}
+
+
+def _noise_object(case):
+    from pyrex.signals import FullThermalNoise, FFTThermalNoise
+    cls = FullThermalNoise if case["cls"] == "FullNoise" else FFTThermalNoise
+    t = case["dt"] * (case["i0"] + np.arange(case["n"]))
+    band = (case["band"][0] / case["dt"], case["band"][1] / case["dt"])
+    np.random.seed(case["seed"])
+    return cls(t, band, rms_voltage=case["rms"]), t
+
+
+def _noise_derive(obj, t, how):
+    from pyrex.signals import EmptySignal, Signal
+    if how == "copy":
+        return obj.copy()
+    if how == "with_times":
+        return obj.with_times(t + 0.5 * (t[1] - t[0]))
+    if how == "with_times_sub":
+        return obj.with_times(t[1:max(3, len(t) // 2)])
+    if how == "mul":
+        return obj * 2.0
+    if how == "rmul":
+        return 0.5 * obj
+    if how == "div":
+        return obj / 4.0
+    e = EmptySignal(t.copy(), value_type=Signal.Type.voltage)
+    return obj + e if how == "add_empty" else e + obj
+
+
+def check_noise_derived(case, rec):
+    """A copy / re-gridded copy / scaled or summed result of a thermal-noise object shares no mutable
+    state with it: assigning the original's published rms, amplitudes or phases afterwards does not
+    change the derived signal (oracle: a twin built from the same seed, derived and evaluated before
+    anything is assigned)."""
+    a, t = _noise_object(case)
+    b, _ = _noise_object(case)
+    want = np.array(_noise_derive(b, t, case["derive"]).values, dtype=float)
+    d = _noise_derive(a, t, case["derive"])
+    if case["read_first"]:
+        got0 = np.array(d.values, dtype=float)
+        require(np.array_equal(got0, want), "twin built from the same seed differs before any assignment")
+    before = np.array(a.values, dtype=float)
+    f = case["factor"]
+    if case["assign"] == "rms":
+        a.rms = a.rms * f
+    elif case["assign"] == "amps":
+        a.amps = np.array(a.amps)[::-1].copy()
+    elif case["assign"] == "amps_scaled":
+        a.amps = np.array(a.amps) * f
+    else:
+        a.phases = np.array(a.phases) + 1.0
+    after = np.array(a.values, dtype=float)
+    scale = float(np.max(np.abs(want))) if want.size else 0.0
+    changed = bool(np.max(np.abs(after - before)) > 1e-9 * max(float(np.max(np.abs(before))), 1e-300))
+    got = np.array(d.values, dtype=float)
+    err = float(np.max(np.abs(got - want))) if want.size else 0.0
+    require(err <= 1e-12 * scale,
+            "%s: the result of %s (values %s before) changed by %.3g (scale %.3g) when %s of the ORIGINAL "
+            "noise object was assigned afterwards: they share state",
+            case["cls"], case["derive"], "read" if case["read_first"] else "not read", err, scale,
+            case["assign"])
+    rec.case(case, nontrivial=changed and scale > 0,
+             classes=[case["cls"], "derive:" + case["derive"], "assign:" + case["assign"],
+                      "read_first" if case["read_first"] else "unread"])
+
+
+def classify_noise_derived(case, exc):
+    if isinstance(exc, Violation) and "they share state" in str(exc):
+        return NOISE_ALIAS_KEY
+    return None
+
+
 PROPERTY = Property(
     "C04", "Signals keep times and values aligned, copy independently and combine pointwise",
     [
@@ -1382,6 +1473,14 @@ PROPERTY = Property(
                       "non-trivial = a modification after a derivation of the modified object, "
                       "or a mixed-class addition",
                  floors={"len>=10": 0.25, "flag:mutate_after_derive": 0.22, "accepted": 0.2, "op:regrid": 0.3, "flag:mixed_add": 0.1, "regrid_kind:function": 0.06, "copy_kind:function": 0.07, "refused_grid": 0.08, "sum_many": 0.06}),
+        SubCheck("noise_derived", noise_derived_cases(), check_noise_derived, quick=400, thorough=20000,
+                 rule="FullThermalNoise / FFTThermalNoise (8-48 samples, random band and rms) x derivation "
+                      "(copy, with_times shifted / sub-window, * / scalar, + EmptySignal either side), read or "
+                      "not read x later assignment of rms / amps / phases on the ORIGINAL; the derived signal "
+                      "must keep the values a twin from the same seed gave before the assignment; "
+                      "non-trivial = the assignment changed the original's own values",
+                 floors={"FullNoise": 0.2, "FFTNoise": 0.2},
+                 classify=classify_noise_derived),
     ],
     assumptions=[
         "time arrays are strictly increasing (re-gridding by interpolation is only defined then); "
